@@ -183,6 +183,22 @@ def model_predicts_difference(ctx, spec, seq):
     return sigs.norm_sig(a['ok'], True, True) != sigs.norm_sig(b['ok'], True, True)
 
 
+def model_optimiser_acts(ctx, spec, seq):
+    """does the Lean transliteration of the optimiser change the list at all (drop, merge, rewrite or reorder)?"""
+    if not ctx.driver:
+        return True
+    try:
+        existing = [m['name'] for a in spec['apps'] if a['id'] == 'vapp' for m in a['models']]
+        orig = [norm_mut(sigs.model_mutation(m)) for m in seq]
+        out = ctx.driver.ask([{'op': 'optimize', 'existing': existing,
+                               'copies': bool(ctx.variant.get('optimizer_copies')), 'mutations': orig}])[0]
+    except Exception:
+        return True
+    if out is None or 'out' not in out:
+        return True
+    return out['out'] != orig
+
+
 def norm_mut(mj):
     mj = {k: v for k, v in mj.items() if k not in ('py_value', 'sql', 'model_name_attr')}
     return mj
